@@ -43,9 +43,9 @@ CLAIMS = {
         note="sequential execution only (Kani has no threads); capacities enumerated, not symbolic; compare_exchange_weak never fails spuriously; the async Sender/Receiver wake-up pairing is outside the technique",
         ref="DESIGN.md §5 C12", tech="Kani (CBMC) inductive per-operation contract harnesses appended to the real channel/queue.rs; complete per capacity"),
     "C14": dict(
-        text="Only the second sentence is decided: Kani proves (loop-free, all u32 values) that a value written through one CachedRwLock clone is what every clone's next synchronised access returns, scratchpad edits never reach the shared value, and later clones start synchronised. Reply matching/ordering (first sentence) is NOT covered: polling the real QueryBroadcaster under Kani timed out (10 min / 6 GB).",
-        note="sequential execution; Output/Requestor are thin wrappers over CachedRwLock<Broadcaster> (not under contract); first sentence not covered",
-        ref="DESIGN.md §5 C14", tech="Kani (CBMC) complete harness appended to the real util/cached_rw_lock.rs"),
+        text="Only the second sentence is decided: Verus proves that Output::{connect, connect_sink} and Requestor::connect add exactly one connection to the value shared by all clones (CachedRwLock::write) and that Output::send / Requestor::send broadcast over a copy synchronised with that shared value (unit ports); Kani proves (loop-free, all u32 values) the CachedRwLock contract this rests on: a value written through one CachedRwLock clone is what every clone's next synchronised access returns, scratchpad edits never reach the shared value, and later clones start synchronised. Reply matching/ordering (first sentence) is NOT covered: polling the real QueryBroadcaster under Kani timed out (10 min / 6 GB).",
+        note="sequential execution; map/filter_map connect variants (Fn closures) and the broadcasters themselves are not under contract; first sentence not covered",
+        ref="DESIGN.md §5 C14", tech="Verus contracts on the extracted port wrappers + Kani (CBMC) complete harness appended to the real util/cached_rw_lock.rs"),
     "C17": dict(
         text="Verus proves, for every capacity, buffer content and event, the contracts of EventBufferWriter::write, EventBuffer::{next,open,close,with_capacity*} and EventSlot{,Writer}::{write,next,open,close,new*} on the text cut from /repo on each run.",
         note="sequentialised (Arc/Mutex/AtomicBool elided; try_lock assumed uncontended); vstd VecDeque specs; __try_fold and the sender future not under contract",
